@@ -4,7 +4,7 @@
   `update_makes_liable`).
 -/
 import DymVerif.Lemmas.CoreLevBasic
-namespace DymVerif.Core
+namespace DymVerif.Core.XLiable
 
 theorem mem_addSeqHeights_old (a : Addr) (bds : List BD) (sh : List (Addr × Nat)) (p : Addr × Nat)
     (h : p ∈ sh) : p ∈ addSeqHeights sh a bds := by
@@ -75,4 +75,4 @@ theorem updateState_liable {s s' : St} {m : UpdMsg} (e : updateState s m = .ok s
                     show (m.sender, b.height) ∈ addSeqHeights s3.seqH m.sender m.bds
                     exact mem_addSeqHeights_new _ _ _ _ hb
 
-end DymVerif.Core
+end DymVerif.Core.XLiable
